@@ -110,11 +110,13 @@ class Run:
         unres = [o for o in self.obs if o.status == UNRESOLVED]
         lines = []
         new_viol, known_hit = [], []
+        seen_v = set()
         for o in viol:
             k = match_known(known, self.prop_id, o)
             if k is not None:
                 known_hit.append((o, k))
-            else:
+            elif (o.rule, o.construct) not in seen_v:
+                seen_v.add((o.rule, o.construct))
                 new_viol.append(o)
         if write:
             os.makedirs(REPLAY_DIR, exist_ok=True)
@@ -222,9 +224,7 @@ def load_known():
 
 def match_known(known, prop_id, ob):
     for k in known:
-        if prop_id in k.get("properties", [k.get("property")]) and k.get("rule_suffix") \
-                and ob.rule.endswith(k["rule_suffix"]) and k.get("construct") == ob.construct:
-            return k
-        if k.get("property") == prop_id and k.get("rule") == ob.rule and k.get("construct") == ob.construct:
+        props = k.get("properties") or [k.get("property")]
+        if prop_id in props and k.get("rule") == ob.rule and k.get("construct") == ob.construct:
             return k
     return None
